@@ -52,6 +52,15 @@ pub fn run(ctx: &mut RunCtx) -> Result<(), Violation> {
             }
         }
     }
+    // control: the honest messages themselves, on the real and the reference verifier
+    for m in &honest {
+        let env_v = ctx.env(&mut s);
+        let d = deliver(ctx, &dep.node, m, m.version, &env_v)?;
+        if !d.accepted() {
+            ctx.st.probe("honest_rejected(C01 territory)");
+            return Ok(());
+        }
+    }
     let reject = |ctx: &mut RunCtx, m: &Msg, strategy: &str, s: &mut crate::prng::Rng| -> Result<(), Violation> {
         let env_v = ctx.env(s);
         let d = deliver(ctx, &dep.node, m, m.version, &env_v)?;
@@ -160,10 +169,16 @@ pub fn run(ctx: &mut RunCtx) -> Result<(), Violation> {
                         let p0 = RefProof::parse(&honest[k % 2].proof).expect("honest proof parses");
                         let u0 = challenges(&dep.node.rm, &p0, &honest[k % 2].pi, Version::V3).u;
                         let p1 = RefProof::parse(&m.proof).expect("forged proof parses");
-                        assert!(
-                            verify_parsed_with_u(&dep.node.rm, &p1, &m.pi, Version::V3, Some(u0)).accepted(),
-                            "harness: the re-balanced forgery does not balance for the original u"
-                        );
+                        // (meaningful only if the honest proof satisfies the protocol's equation in the first
+                        // place; if it does not, that is reported by the deliveries below, not here)
+                        if verify_parsed_with_u(&dep.node.rm, &p0, &honest[k % 2].pi, Version::V3, None).accepted() {
+                            assert!(
+                                verify_parsed_with_u(&dep.node.rm, &p1, &m.pi, Version::V3, Some(u0)).accepted(),
+                                "harness: the re-balanced forgery does not balance for the original u"
+                            );
+                        } else {
+                            ctx.st.probe("honest_proof_fails_the_reference_equation");
+                        }
                     }
                     ctx.st.fault("byzantine.rebalanced_opening_witnesses");
                     ctx.st.eval(sig ^ digest(&m.proof) ^ 0x7, true);
